@@ -143,5 +143,87 @@ end Verif.Properties.C14
     open(os.path.join(ROOT, "lean/Verif/Properties/C14.lean"), "w").write("\n".join(out))
     return n
 
+def c13():
+    SAT = [("SaturatingPlus", "satadd", "add"), ("SaturatingMinus", "satsub", "sub"),
+           ("SaturatingMul", "satmul", "mul"), ("SaturatingDiv", "satdiv", "div")]
+    out = ["""/-
+C13 — Saturating arithmetic clamps to the type's range.
+
+For every integer type T and every saturating member that Cadence declares for it (sema's
+SaturatingArithmeticSupport table: Int8..Int256 all four, UInt8..UInt256 add / subtract / multiply,
+UInt subtract; Int and the Word types declare none — the `sat` stream checks that table against the
+checker) the *generated* definition `Verif.Gen.NumGo.<T>Value.Saturating<Op>` (regenerated from
+interpreter/value_*.go on every run) equals `Verif.Spec.Arith.specSaturating`: the exact result
+(truncated division) clamped to [min T, max T]; the only error is division by zero — never
+overflow / underflow, never a Go run-time panic.
+Only statements and their final proofs live here; tactics and lemmas are in Verif.Proofs.ArithSat.
+-/
+import Verif.Proofs.ArithSat
+set_option linter.unusedVariables false
+namespace Verif.Properties.C13
+open Verif.Model.Num Verif.Spec.Arith Verif.Gen.NumGo Verif.Proofs.Arith Verif.Proofs.ArithSat
+"""]
+    n = 0
+    def emit(T, t, m, th, o, hi, lo):
+        nonlocal n
+        tac = {"add": "sat_arith", "sub": "sat_arith", "div": "sat_div a b", "mul": f"sat_mul a b ({hi}) ({lo})"}[o]
+        out.append(f"theorem C13_{T}_{th} (a b : Int) (ha : inRange {t} a) (hb : inRange {t} b) :\n"
+                   f"    {T}Value.{m} a b = specSaturating {t} .{o} a b := by\n"
+                   f"  unfold {T}Value.{m}; {tac}\n")
+        n += 1
+    for w in W:
+        out.append(f"/-! ### Int{w} -/\n")
+        for m, th, o in SAT:
+            emit(f"Int{w}", f"(.int {w})", m, th, o, 2 ** (w - 1) - 1, -2 ** (w - 1))
+    for w in W:
+        out.append(f"/-! ### UInt{w} (declares no saturatingDivide) -/\n")
+        for m, th, o in SAT[:3]:
+            emit(f"UInt{w}", f"(.uint {w})", m, th, o, 2 ** w - 1, 0)
+    out.append("/-! ### UInt (declares saturatingSubtract only) -/\n")
+    emit("UInt", ".bigUInt", "SaturatingMinus", "satsub", "sub", 0, 0)
+    out.append("""/-! ### The spec: only division by zero fails; the result is a value of the type; in-range results are exact -/
+
+theorem C13_only_divZero (T : Ty) (op : Op) (a b : Int) (e : NumErr) (h : specSaturating T op a b = .error e) :
+    e = .divZero ∧ b = 0 ∧ op.divides = true := by
+  unfold specSaturating at h
+  split at h
+  · rename_i hc; cases h; exact ⟨rfl, hc.2, hc.1⟩
+  · cases h
+
+theorem C13_result_inRange (T : Ty) (hT : ∀ l h, T.lo = some l → T.hi = some h → l ≤ h) (op : Op) (a b r : Int)
+    (h : specSaturating T op a b = .ok r) : inRange T r := by
+  unfold specSaturating at h
+  split at h
+  · cases h
+  · cases h; exact clamp_inRange T hT _
+
+theorem C13_exact_when_representable (T : Ty) (op : Op) (a b : Int) (hz : ¬ (op.divides ∧ b = 0))
+    (h : inRange T (exact op a b)) : specSaturating T op a b = .ok (exact op a b) := by
+  unfold specSaturating
+  rw [if_neg hz, clamp_of_inRange T _ h]
+
+/-! ### The Go methods behind members that no type declares (unreachable from Cadence programs): a zero
+    divisor yields a nil value, not the division-by-zero error (a deferred recover() swallows the panic) -/
+
+theorem C13_unreachable_satdiv_nil_witness : UInt8Value.SaturatingDiv 1 0 = .error .nilValue ∧
+    UInt256Value.SaturatingDiv 1 0 = .error .nilValue ∧ UIntValue.SaturatingDiv 1 0 = .error .nilValue ∧
+    IntValue.SaturatingDiv 1 0 = .error .nilValue := by decide
+
+/-! ### Non-vacuity -/
+
+example : inRange (.int 8) 127 ∧ Int8Value.SaturatingPlus 127 1 = .ok 127 ∧ Int8Value.SaturatingMinus (-128) 1 = .ok (-128) := by decide
+example : Int8Value.SaturatingDiv (-128) (-1) = .ok 127 ∧ Int8Value.SaturatingDiv 5 0 = .error .divZero := by decide
+example : Int64Value.SaturatingMul (-9223372036854775808) (-1) = .ok 9223372036854775807 := by decide
+example : UInt8Value.SaturatingMinus 3 4 = .ok 0 ∧ UInt8Value.SaturatingMul 16 16 = .ok 255 ∧ UIntValue.SaturatingMinus 3 4 = .ok 0 := by decide
+example : Int256Value.SaturatingMul (2 ^ 255 - 1) 2 = .ok (2 ^ 255 - 1) ∧ specSaturating (.int 256) .mul (2 ^ 255 - 1) 2 = .ok (2 ^ 255 - 1) := by decide
+example : ∀ l h, (Ty.int 8).lo = some l → (Ty.int 8).hi = some h → l ≤ h := by intro l h hl hh; cases hl; cases hh; decide
+
+end Verif.Properties.C13
+""")
+    n += 4
+    open(os.path.join(ROOT, "lean/Verif/Properties/C13.lean"), "w").write("\n".join(out))
+    return n
+
 if __name__ == "__main__":
     print("C14:", c14(), "theorems")
+    print("C13:", c13(), "theorems")
